@@ -617,6 +617,24 @@ ALLOW_MISSING = {
 }
 
 
+def _lookahead_slots(b):
+    out = set()
+    for bb, c in b.calls():
+        if bb in b.live_blocks and (c.name or c.decl or "").endswith("Option::<T>::take") and c.args and c.args[0][0] in ("c", "m"):
+            l = c.args[0][1][0]
+            d = b.single_def(l)
+            if d and d[0] == "stmt" and d[3][0] == "ref" and not d[3][2][1]:
+                out.add(d[3][2][0])
+            elif b.local_ty(l).startswith("core::option::Option<"):
+                out.add(l)
+    return out or {l for l in range(len(b.locals)) if (b.local_name(l) or "") == "saved_cql_field"}
+
+
+def _is_fetch(c):
+    """`saved.take().or_else(|| iter.next())` or a bare `iter.next()` (declared or resolved name)"""
+    return any((x or "").endswith(("Option::<T>::or_else", "Iterator::next")) for x in (c.name, c.decl))
+
+
 def r10(ctx, facts):
     r = ctx.rule("R10", "ordered UDT type_check: when the UDT's field list ends at a REQUIRED field the type is refused (only allow_missing fields may be absent)", floor=5)
     from ..util import dj_of
@@ -628,7 +646,7 @@ def r10(ctx, facts):
         dj = dj_of(b, facts)
         order = rpo_index(b)
         # one "fetch the next UDT field" per Rust field, in declaration order: `saved.take().or_else(|| iter.next())` or a bare next()
-        fetch = sorted([c for bb, c in b.calls() if bb in b.live_blocks and (c.name or c.decl or "").endswith(("Option::<T>::or_else", "Iterator::next"))
+        fetch = sorted([c for bb, c in b.calls() if bb in b.live_blocks and _is_fetch(c)
                         and "Option" in b.local_ty(c.dest[0]) and not c.dest[1]], key=lambda c: order.get(c.bb, 1 << 30))
         # keep the outermost fetch per field: an or_else whose closure calls next() shows only the or_else here (the closure is a separate body)
         live_fields = [(f, cql) for f, cql, ty in fields if cql is not None]
@@ -749,17 +767,19 @@ def r13(ctx, facts):
         b = find_body(facts, r"^<derive_family::%s as scylla_cql_core::deserialize::value::DeserializeValue<'lifetime, 'lifetime_>>::type_check$" % name)
         dj = dj_of(b, facts)
         order = rpo_index(b)
-        fetch = sorted([c for bb, c in b.calls() if bb in b.live_blocks and (c.name or c.decl or "").endswith(("Option::<T>::or_else", "Iterator::next"))
+        fetch = sorted([c for bb, c in b.calls() if bb in b.live_blocks and _is_fetch(c)
                         and "Option" in b.local_ty(c.dest[0]) and not c.dest[1]], key=lambda c: order.get(c.bb, 1 << 30))
         tcs = sorted([c for bb, c in b.calls() if bb in b.live_blocks and c.decl == "scylla_cql_core::deserialize::value::DeserializeValue::type_check"], key=lambda c: order.get(c.bb, 1 << 30))
         live_fields = [(f, cql) for f, cql, ty in fields if cql is not None]
         if len(fetch) != len(live_fields) or len(tcs) != len(live_fields):
             raise AnchorLost("%s::type_check: %d fetches / %d type checks for %d fields" % (name, len(fetch), len(tcs), len(live_fields)))
-        # parking a field for the next Rust field (the allow_missing name-mismatch path): a Some(..) stored into the look-ahead slot
+        # parking a field for the next Rust field (the allow_missing name-mismatch path): a Some(..) stored into the look-ahead slot.
+        # The slot is found by role: the Option local that `Option::take` is called on (whatever it is named)
+        slots = _lookahead_slots(b)
         parks = []
         for bb in sorted(b.live_blocks):
             for st in b.stmts(bb):
-                if st[0] == "A" and not st[1][1] and (b.local_name(st[1][0]) or "") == "saved_cql_field" and not (st[2][0] == "agg" and st[2][1][0] == "adt" and st[2][1][2] == "None"):
+                if st[0] == "A" and not st[1][1] and st[1][0] in slots and not (st[2][0] == "agg" and st[2][1][0] == "adt" and st[2][1][2] == "None"):
                     parks.append(bb)
         oks = [bb for bb in b.live_blocks for st in b.stmts(bb) if st[0] == "A" and st[1][0] == 0 and not st[1][1] and st[2][0] == "agg" and st[2][1][0] == "adt" and st[2][1][2] == "Ok"]
         for k, ((f, cql), c, tc) in enumerate(zip(live_fields, fetch, tcs)):
